@@ -40,6 +40,9 @@ type Result struct {
 	SkippedInMatch bool // a flag skipped a glyph inside a match
 	NestedAfterLen bool // a nested action ran after a length change
 	Shadowed       bool // a later subtable of the same lookup would also have matched
+	// DirectionDependent: a GSUB type 8 lookup gives different results when
+	// processed end-to-start (specification) and start-to-end.
+	DirectionDependent bool
 }
 
 type frame struct {
@@ -796,8 +799,20 @@ func (s *shaper) runContext(meta *gtab.LookupMetaInfo, a int, pos []int, e int, 
 	return s.index(f.end)
 }
 
+// Options selects documented deviations of the implementation under test.
+type Options struct {
+	// Gsub8Forward processes reverse chaining (GSUB type 8) lookups from the
+	// start of the sequence, as the repository's TODO says it does.
+	Gsub8Forward bool
+}
+
 // Apply applies the given lookups, in the given order, to seq.
 func Apply(ll gtab.LookupList, gd *gdef.Table, lookups []gtab.LookupIndex, in []glyph.Info) *Result {
+	return ApplyOpts(ll, gd, lookups, in, Options{})
+}
+
+// ApplyOpts is Apply with options.
+func ApplyOpts(ll gtab.LookupList, gd *gdef.Table, lookups []gtab.LookupIndex, in []glyph.Info, opt Options) *Result {
 	s := &shaper{ll: ll, gd: gd, res: &Result{}}
 	for _, g := range in {
 		s.seq = append(s.seq, &node{gid: g.GID, text: append([]rune(nil), g.Text...),
@@ -809,7 +824,7 @@ func Apply(ll gtab.LookupList, gd *gdef.Table, lookups []gtab.LookupIndex, in []
 		}
 		l := ll[li]
 		if hasReverse(l) {
-			s.reverseLookup(l)
+			s.reverseLookup(l, opt.Gsub8Forward)
 			continue
 		}
 		pos := 0
@@ -854,10 +869,10 @@ func hasReverse(l *gtab.LookupTable) bool {
 }
 
 // reverseLookup applies a type 8 lookup.  The specification processes the
-// glyph sequence from the end to the beginning; the outcome is defined here
-// only if forward processing (what the repository documents as a TODO) gives
-// the same result.
-func (s *shaper) reverseLookup(l *gtab.LookupTable) {
+// glyph sequence from the end to the beginning; with forward=true the
+// sequence is processed from the start (what the repository documents as a
+// TODO).  DirectionDependent records whether the two orders differ.
+func (s *shaper) reverseLookup(l *gtab.LookupTable, forward bool) {
 	snapshot := func() []node {
 		r := make([]node, len(s.seq))
 		for i, n := range s.seq {
@@ -870,24 +885,31 @@ func (s *shaper) reverseLookup(l *gtab.LookupTable) {
 			*s.seq[i] = r[i]
 		}
 	}
+	run := func(fwd bool) {
+		if fwd {
+			for pos := 0; pos < len(s.seq); pos++ {
+				if !s.ignored(l.Meta, s.seq[pos].gid) {
+					s.applyAt(l, pos, len(s.seq), 0)
+				}
+			}
+		} else {
+			for pos := len(s.seq) - 1; pos >= 0; pos-- {
+				if !s.ignored(l.Meta, s.seq[pos].gid) {
+					s.applyAt(l, pos, len(s.seq), 0)
+				}
+			}
+		}
+	}
 	orig := snapshot()
-	for pos := 0; pos < len(s.seq); pos++ {
-		if !s.ignored(l.Meta, s.seq[pos].gid) {
-			s.applyAt(l, pos, len(s.seq), 0)
-		}
-	}
-	fwd := snapshot()
-	restore(orig)
 	fired := s.res.Fired
-	for pos := len(s.seq) - 1; pos >= 0; pos-- {
-		if !s.ignored(l.Meta, s.seq[pos].gid) {
-			s.applyAt(l, pos, len(s.seq), 0)
-		}
-	}
-	s.res.Fired = fired + (s.res.Fired-fired)/1
-	for i := range fwd {
-		if fwd[i].gid != s.seq[i].gid {
-			s.undef("reverse chaining substitution whose result depends on the processing direction (specification: end to start; repository TODO: start to end)")
+	run(!forward)
+	other := snapshot()
+	restore(orig)
+	s.res.Fired = fired
+	run(forward)
+	for i := range other {
+		if other[i].gid != s.seq[i].gid {
+			s.res.DirectionDependent = true
 			break
 		}
 	}
